@@ -498,6 +498,11 @@ func (n *node) deliverAt(i int) *violation {
 				n.touch(sub) // the lease is live again at the current epoch
 				// ... in memory only: the stored record keeps its old epoch and the next clean-up pass removes it
 				n.revived[sub] = fmt.Sprintf("the late echo #%d of %s's own put revived its lapsed lease in memory; the stored record kept its old epoch", ev.seq, sub)
+			} else if _, tracked := n.touched[sub]; !tracked && got == want && got != "" {
+				// memory had lost the lease to an earlier (stale) event and this echo put it back: SetAllocation
+				// stamps the current epoch, so the model's lease starts now too (otherwise its later, legitimate
+				// expiry in memory would be mistaken for a disagreement with the store)
+				n.touch(sub)
 			}
 		}
 		return nil
